@@ -55,6 +55,10 @@ pub enum ExtR {
     /// frob^d(e) / e for the inner element e (1 when e = 0): an element whose NORM to the subfield of degree d is
     /// one (d = 6 in Fq12: the unitary elements c0^2 - v c1^2 = 1, among them all pairing values)
     NormOne(Box<ExtR>, u8),
+    /// the inner element with its components made RELATED: kind 0: c1 := c0 (the two Fq6 halves equal; for an Fq6
+    /// element: all three Fq2 coefficients equal), 1: c1 := -c0, 2: c1 := v * c0, 3: halves swapped,
+    /// 4: all six Fq2 coefficients equal, 5: c1 := conj-like (c0 with every Fq2 coefficient conjugated)
+    Related(Box<ExtR>, u8),
 }
 
 fn mask_strategy(ncoef: usize) -> BoxedStrategy<u16> {
@@ -97,6 +101,7 @@ pub fn ext_strategy(ncoef: usize) -> BoxedStrategy<ExtR> {
         1 => Just(ExtR::One),
         16 => plain(),
         3 => (plain(), proptest::sample::select(degs)).prop_map(|(e, d)| ExtR::NormOne(Box::new(e), d)),
+        3 => (plain(), 0u8..6).prop_map(|(e, k)| ExtR::Related(Box::new(e), k)),
     ]
     .boxed()
 }
@@ -112,6 +117,38 @@ impl ExtR {
             ExtR::GenPow(k) => {
                 let g = if ncoef == 12 { Fq12::w() } else { Fq12::w().sqr() };
                 return g.pow(&Z::from(*k as u32)).to_tower();
+            }
+            ExtR::Related(inner, kind) => {
+                let mut u = inner.tower(ncoef);
+                if ncoef == 12 {
+                    match kind % 6 {
+                        0 => u[1] = u[0].clone(),
+                        1 => u[1] = [u[0][0].neg(), u[0][1].neg(), u[0][2].neg()],
+                        2 => {
+                            // v * (a0 + a1 v + a2 v^2) = xi a2 + a0 v + a1 v^2, xi = 1 + u
+                            let xi = Fq2::new(Fq::one(), Fq::one());
+                            u[1] = [u[0][2].mul(&xi), u[0][0].clone(), u[0][1].clone()];
+                        }
+                        3 => u.swap(0, 1),
+                        4 => {
+                            let a = u[0][0].clone();
+                            u = [[a.clone(), a.clone(), a.clone()], [a.clone(), a.clone(), a]];
+                        }
+                        _ => u[1] = [u[0][0].conj(), u[0][1].conj(), u[0][2].conj()],
+                    }
+                } else {
+                    match kind % 6 {
+                        0 | 4 => {
+                            let a = u[0][0].clone();
+                            u[0] = [a.clone(), a.clone(), a];
+                        }
+                        1 => u[0][1] = u[0][0].neg(),
+                        2 => u[0][2] = u[0][1].clone(),
+                        3 => u[0].swap(0, 2),
+                        _ => u[0][1] = u[0][0].conj(),
+                    }
+                }
+                return u;
             }
             ExtR::NormOne(inner, d) => {
                 let e = Fq12::from_tower(&inner.tower(ncoef));
@@ -144,6 +181,7 @@ impl ExtR {
             ExtR::One => "one".into(),
             ExtR::GenPow(_) => "generator-power".into(),
             ExtR::NormOne(_, d) => format!("norm-one-over-degree-{}-subfield", d),
+            ExtR::Related(_, k) => format!("related-components:{}", ["equal", "negated", "times-v", "swapped", "all-equal", "conjugated"][*k as usize % 6]),
             ExtR::Coeffs(_, m) => {
                 let all: u16 = if ncoef == 12 { 0x0fff } else { 0x003f };
                 if *m == all {
